@@ -4,6 +4,7 @@ import (
 	"context"
 	"encoding/json"
 	"fmt"
+	"io"
 	"os"
 	"path/filepath"
 	"sort"
@@ -18,6 +19,7 @@ import (
 
 	"github.com/flant/shell-operator/pkg/hook/task_metadata"
 	htypes "github.com/flant/shell-operator/pkg/hook/types"
+	metricstorage "github.com/flant/shell-operator/pkg/metric_storage"
 	shell_operator "github.com/flant/shell-operator/pkg/shell-operator"
 	"github.com/flant/shell-operator/pkg/task"
 	"github.com/flant/shell-operator/pkg/task/queue"
@@ -999,8 +1001,12 @@ func (w *c04World) end(qn int, mode string, out *c04Out) string {
 		fc = run.real.GetFailureCount()
 	}
 	if run.kind == "exec" {
-		w.c.Oracle(fmt.Sprintf("end q=%d %s task=%d ctxs=%s sleep=%d after=%s s0=0 pay=%s", qn, ok, id, w.hookCtxs(run.start.ctxs),
-			bo.delay.Nanoseconds(), afterS, run.pay))
+		una := ""
+		if out != nil {
+			una = " unapplied=" + w.unapplied(run.hook.Name, out.Metrics)
+		}
+		w.c.Oracle(fmt.Sprintf("end q=%d %s task=%d ctxs=%s sleep=%d after=%s s0=0 pay=%s%s", qn, ok, id, w.hookCtxs(run.start.ctxs),
+			bo.delay.Nanoseconds(), afterS, run.pay, una))
 	}
 	w.c.Op(fmt.Sprintf("end q=%d %s", qn, ok), fmt.Sprintf("status=%s fc=%d sleep=%d queue=%s", status, fc,
 		bo.delay.Nanoseconds(), w.snapIds(afterSnaps)))
@@ -1022,6 +1028,79 @@ func (w *c04World) end(qn int, mode string, out *c04Out) string {
 		}
 	}
 	return status
+}
+
+// unapplied looks, right after the handler has returned, for the EFFECT of every operation of the metrics
+// file in the registry of the operator's HookMetricStorage (Gather): an operation other than "expire"
+// must be visible as a series of its name with the hook's label, unless a later "expire" of its group in
+// the same file removed it again. The answer is the number of operations without a visible effect ("-":
+// the harness cannot read the text as a stream of objects — nothing is claimed then). The documents are
+// read with encoding/json into a struct of the harness; the only knowledge about the operator used is the
+// documented meaning of the members (set/add shortcuts, expire).
+func (w *c04World) unapplied(hook, text string) string {
+	type mop struct {
+		Name, Group, Action string
+		Set, Add, Value     *float64
+	}
+	var ops []mop
+	dec := json.NewDecoder(strings.NewReader(text))
+	for {
+		var o mop
+		err := dec.Decode(&o)
+		if err != nil {
+			if err == io.EOF {
+				break
+			}
+			return "-"
+		}
+		if o.Set != nil && o.Add == nil {
+			o.Action = "set"
+		}
+		if o.Add != nil && o.Set == nil {
+			o.Action = "add"
+		}
+		ops = append(ops, o)
+	}
+	if len(ops) == 0 {
+		return "0"
+	}
+	visible := map[string]bool{}
+	ms, isMS := w.op.HookMetricStorage.(*metricstorage.MetricStorage)
+	if !isMS || ms.Registry == nil {
+		return "-"
+	}
+	mfs, err := ms.Registry.Gather()
+	if err != nil {
+		return "-"
+	}
+	for _, mf := range mfs {
+		for _, m := range mf.GetMetric() {
+			for _, lp := range m.GetLabel() {
+				if lp.GetName() == "hook" && (lp.GetValue() == hook || lp.GetValue() == hook+".sh") {
+					visible[mf.GetName()] = true
+				}
+			}
+		}
+	}
+	n := 0
+	for i, o := range ops {
+		if o.Action == "expire" && o.Group != "" {
+			continue // its effect is an absence
+		}
+		expiredLater := false
+		for _, l := range ops[i+1:] {
+			if o.Group != "" && l.Group == o.Group && l.Action == "expire" {
+				expiredLater = true
+			}
+		}
+		if expiredLater {
+			continue
+		}
+		if o.Name == "" || !visible[o.Name] {
+			n++
+		}
+	}
+	return strconv.Itoa(n)
 }
 
 // c04OkArg is how the outcome of a run is stated on the `end` lines: ok=<0|1> for the fixed modes,
@@ -1541,7 +1620,7 @@ func c04PayloadWitness(c *Case, r *Run) {
 
 // Output-file layouts: a task that does not allow failure leaves unparsable output files behind
 // (exit code 0) several times, then good ones; a later task of another hook waits behind it.
-func c04OutWitness(c *Case, r *Run) {
+func c04OutWitness(c *Case, r *Run, table bool) {
 	hooks := []c04Hook{{Name: "hook01", Num: 1, Queue: 1, Bindings: []c04Binding{{Name: "b2", Crontab: "1 0 1 1 *"}}},
 		{Name: "hook02", Num: 2, Queue: 1, Bindings: []c04Binding{{Name: "b3", Crontab: "2 0 1 1 *"}}}}
 	p := c04Plan{hooks: hooks, boInit: 20 * time.Millisecond, boStep: 5 * time.Millisecond, maxSteps: 30,
@@ -1555,6 +1634,19 @@ func c04OutWitness(c *Case, r *Run) {
 		{Metrics: `{"name":"verif_w","set":"1"}`, Shape: "metrics:wrong-type-set", Bad: true},
 		{Patch: cm + "}\n", PApply: true, Shape: "patch:stray-closer-last", Bad: true},
 		{Metrics: m + "\n" + m + "\n", Patch: cm, PApply: true, Shape: "valid-output"},
+	}
+	if table {
+		// every member legal, the combination not: nothing applies such an operation
+		outs = []*c04Out{
+			{Metrics: `{"group":"verif_grp","name":"verif_w_h","action":"observe","value":1,"buckets":[1,2]}` + "\n", Shape: "metrics:table-grouped-observe", Bad: true},
+			{Metrics: m + "\n" + `{"name":"verif_w","action":"expire"}` + "\n", Shape: "metrics:table-ungrouped-expire", Bad: true},
+			{Metrics: `{"group":"verif_grp","action":"set","value":1}`, Shape: "metrics:table-grouped-set-without-name", Bad: true},
+			{Metrics: `{"name":"verif_w_h","action":"observe","value":1}` + "\n" + m, Shape: "metrics:table-observe-without-buckets", Bad: true},
+			{Metrics: `{"group":"verif_grp","name":"verif_w_gc","action":"Expire"}`, Shape: "metrics:table-action-wrong-case", Bad: true},
+			{Metrics: `{"group":"verif_grp","name":"verif_w_gg","set":1,"add":1}`, Shape: "metrics:table-set-and-add", Bad: true},
+			{Metrics: `{"group":"verif_grp","name":"verif_w_gc","action":"add","value":1}` + "\n" + `{"group":"verif_grp2","action":"expire","name":null}` + "\n" +
+				`{"name":"verif_w_h","action":"observe","value":1,"buckets":[1,2]}` + "\n" + `{"group":"verif_grp","name":"verif_w_gg","set":2,"action":"observe"}` + "\n", Shape: "valid-output"},
+		}
 	}
 	first := -1
 	p.genOut = func(id, failed int) *c04Out {
@@ -1572,7 +1664,7 @@ func c04OutWitness(c *Case, r *Run) {
 }
 
 func runC04(r *Run) {
-	r.Rule = "part 1: the real CalculateDelay (8 initial delays x retry counts 0..40, repeated) and the queue's default ExponentialBackoffFn: every observed delay must be a member of the model's set {calcDelay k r | r < 1000}; oracle: initial <= delay <= 32s. part 2: the real operator (NewShellOperator + real metric storages + kube-client/fake + real hook manager, kube events manager, events handler and queues) with 1..3 generated bash hooks (onStartup, 1..3 schedule bindings, in 60% of the cases 1..3 kubernetes bindings on ConfigMaps, each with allowFailure/group, kubernetes ones with executeHookOnSynchronization; queue main or q1) whose every execution blocks at a gate until the harness lets it finish as scripted (ok / exit 1 / unparsable metrics file / unparsable patch file / metric operation that fails validation / patch operation that cannot be applied); startup runs onStartup and Synchronization tasks; then schedule events are fired through ScheduleManager.Ch() and kubernetes events by creating objects in the fake cluster while a run is blocked, so queue layouts of 1..6 tasks (+ up to 4 arriving during runs) with mixed allowFailure values are in the queue when the head is handled; back-off shortened through ExponentialBackoffFn (15..30 ms + 5 ms*failureCount, or the real CalculateDelay for the first failure). Observation per run (taken inside a wrapper of the queue's Handler field and from the hook): queue at handler entry, contexts in the hook's context file, queue at handler return, failure counter, back-off returned, time from the back-off call to the next handler entry. 60% of the failing and half of the successful executions leave GENERATED output files behind (exit code, text of the metrics file, text of the patch file: 1..3 valid metric operations / 1..2 valid patch specs in varied spelling, damaged by one of: truncated, stray closer }/] before the first / between two / after the last document, trailing garbage, wrong type of a field, top level not an object, separator between documents, bad token, operation failing validation, unknown field, patch that cannot be applied, non-zero exit with good files); for these runs the lines carry exit code and file texts and the Lean driver decides from the texts whether the run failed. Fourth wave dimensions: 45% of the v1 hooks have bindings that SHARE A NAME (no name: line = default name of the kind, or one explicit name; ungrouped kubernetes bindings too, also across kinds); 18% of the generated failing outputs end with the hook process TERMINATED BY A SIGNAL (16 signals, after the files are written; exit=sig<n> on the lines), exit codes 1 2 3 64 126 127 128 130 137 143 254 255; in half of the cases the public CancelTaskDelay() of the queue is called 1..2 times in 35% of the runs WHILE THE HOOK IS BLOCKED (worker inside the handler, no wait in progress; cancel line: flags read through VerifWaitFlags) — the back-off of a failure of that run must still last its length (oracle begin). Fifth wave dimensions: every hook execution COPIES THE CONTEXT FILE IT RECEIVED; the oracle lines carry per context what it held (pay=<watch event, object+filterResult>/<objects>/<snapshots entries>, interned canonical JSON) and oracle begin compares the retry of a failed run with the failed run itself (Event members identical, objects / snapshot entries a superset, every ungrouped Event context as often); ungrouped schedule (50%) / kubernetes (40%) bindings get includeSnapshotsFrom (subset of the unambiguously named kubernetes bindings of the hook), half of the kubernetes bindings a jqFilter, in half of the cases with kubernetes bindings 1..2 objects per binding exist before the operator starts. part 3: generated and corpus texts through MetricOperationsFromBytes+ValidateOperations and ParseOperations alone, compared with the model's verdict. Non-trivial: >= 2 tasks in the layouts. distinct = distinct op-line sequences."
+	r.Rule = "part 1: the real CalculateDelay (8 initial delays x retry counts 0..40, repeated) and the queue's default ExponentialBackoffFn: every observed delay must be a member of the model's set {calcDelay k r | r < 1000}; oracle: initial <= delay <= 32s. part 2: the real operator (NewShellOperator + real metric storages + kube-client/fake + real hook manager, kube events manager, events handler and queues) with 1..3 generated bash hooks (onStartup, 1..3 schedule bindings, in 60% of the cases 1..3 kubernetes bindings on ConfigMaps, each with allowFailure/group, kubernetes ones with executeHookOnSynchronization; queue main or q1) whose every execution blocks at a gate until the harness lets it finish as scripted (ok / exit 1 / unparsable metrics file / unparsable patch file / metric operation that fails validation / patch operation that cannot be applied); startup runs onStartup and Synchronization tasks; then schedule events are fired through ScheduleManager.Ch() and kubernetes events by creating objects in the fake cluster while a run is blocked, so queue layouts of 1..6 tasks (+ up to 4 arriving during runs) with mixed allowFailure values are in the queue when the head is handled; back-off shortened through ExponentialBackoffFn (15..30 ms + 5 ms*failureCount, or the real CalculateDelay for the first failure). Observation per run (taken inside a wrapper of the queue's Handler field and from the hook): queue at handler entry, contexts in the hook's context file, queue at handler return, failure counter, back-off returned, time from the back-off call to the next handler entry. 60% of the failing and half of the successful executions leave GENERATED output files behind (exit code, text of the metrics file, text of the patch file: 1..3 valid metric operations / 1..2 valid patch specs in varied spelling, damaged by one of: truncated, stray closer }/] before the first / between two / after the last document, trailing garbage, wrong type of a field, top level not an object, separator between documents, bad token, operation failing validation, unknown field, patch that cannot be applied, non-zero exit with good files); for these runs the lines carry exit code and file texts and the Lean driver decides from the texts whether the run failed. Fourth wave dimensions: 45% of the v1 hooks have bindings that SHARE A NAME (no name: line = default name of the kind, or one explicit name; ungrouped kubernetes bindings too, also across kinds); 18% of the generated failing outputs end with the hook process TERMINATED BY A SIGNAL (16 signals, after the files are written; exit=sig<n> on the lines), exit codes 1 2 3 64 126 127 128 130 137 143 254 255; in half of the cases the public CancelTaskDelay() of the queue is called 1..2 times in 35% of the runs WHILE THE HOOK IS BLOCKED (worker inside the handler, no wait in progress; cancel line: flags read through VerifWaitFlags) — the back-off of a failure of that run must still last its length (oracle begin). Fifth wave dimensions: every hook execution COPIES THE CONTEXT FILE IT RECEIVED; the oracle lines carry per context what it held (pay=<watch event, object+filterResult>/<objects>/<snapshots entries>, interned canonical JSON) and oracle begin compares the retry of a failed run with the failed run itself (Event members identical, objects / snapshot entries a superset, every ungrouped Event context as often); ungrouped schedule (50%) / kubernetes (40%) bindings get includeSnapshotsFrom (subset of the unambiguously named kubernetes bindings of the hook), half of the kubernetes bindings a jqFilter, in half of the cases with kubernetes bindings 1..2 objects per binding exist before the operator starts. Sixth wave dimensions: metric operations drawn from the CROSS PRODUCT group x action (set/add/observe/expire/none/unknown/wrong case) x name x value x buckets x set/add shortcuts, every member spelled legally (3 of 12 spellings of the valid documents; damage shape validation-table = an unsupported combination among good documents); after every run with a generated output the harness looks for the EFFECT of every operation of the metrics file in the registry of the operator's HookMetricStorage (Gather: a series of its name with the hook's label; expire = absence) and states unapplied=<n> on oracle end — operations without effect while the task of a binding that does not allow failure left the queue is a violation, whatever the model says about the text. part 3: generated and corpus texts through MetricOperationsFromBytes+ValidateOperations and ParseOperations alone, compared with the model's verdict. Non-trivial: >= 2 tasks in the layouts. distinct = distinct op-line sequences."
 	r.CaseTimeout = 300 * time.Second
 	r.One(0, func(c *Case, _ *Rng) { c04Delays(c, r) })
 	r.One(1, func(c *Case, _ *Rng) {
@@ -1595,7 +1687,12 @@ func runC04(r *Run) {
 	r.One(7, func(c *Case, _ *Rng) {
 		c.Desc = "corpus: metrics files with a stray closing brace / bracket after good documents, a truncated one, a wrong type; patch file with a stray closer; each then a good output"
 		c.Nontrivial = true
-		c04OutWitness(c, r)
+		c04OutWitness(c, r, false)
+	})
+	r.One(5000000, func(c *Case, _ *Rng) {
+		c.Desc = "corpus: metrics files whose operations are spelled legally but in an unsupported COMBINATION (grouped observe, ungrouped expire, grouped set without name, observe without buckets, action in the wrong case, set+add), exit code 0 each time, then a good output with grouped / ungrouped / shortcut operations; a task of another hook waits behind"
+		c.Nontrivial = true
+		c04OutWitness(c, r, true)
 	})
 	r.One(8, func(c *Case, _ *Rng) {
 		c.Desc = "corpus: two UNNAMED schedule bindings of one hook (both named \"schedule\"), head allowFailure:true, follower allowFailure:false, hook fails twice; CancelTaskDelay() while each run is blocked"
